@@ -2,6 +2,7 @@ import Lean.Data.Json
 import CbiVerif.Drv.PP
 import CbiVerif.Drv.Metrics
 import CbiVerif.Drv.C06
+import CbiVerif.Drv.C06Compose
 import CbiVerif.Drv.Dups
 import CbiVerif.Drv.DbPath
 import CbiVerif.Drv.Exclude
@@ -25,6 +26,7 @@ def handlerTable : List (String × (Json → Json)) :=
   (ppOps.map fun o => (o, handlePP)) ++
   CbiVerif.Drv.Metrics.handlers ++
   CbiVerif.Drv.C06.handlers ++
+  CbiVerif.Drv.C06Compose.handlers ++
   CbiVerif.Drv.Dups.handlers ++
   CbiVerif.Drv.DbPath.handlers ++
   CbiVerif.Drv.Exclude.handlers ++
